@@ -137,11 +137,15 @@ def _run_session(rd, drv, dongle, case, out, session_index):
                     pk.data = bytes([up_seq & 0xff, up_seq >> 8]) if up_seq % 5 else bytes([up_seq & 0xff, up_seq >> 8, 0xF3, 0xFF])
                     if up_seq % 7 == 3:
                         pk.data = b''       # header-only packet: told apart from its neighbours by port and channel
+                    elif up_seq % 9 == 4:
+                        pk.data = bytes([up_seq & 0xff, up_seq >> 8]) + bytes(range(100, 128))   # a full packet: 30 data bytes
                     if drv.send_packet(pk):
                         submitted.append((pk.header & 0xF3, bytes(pk.data)))
                     up_seq += 1
                 for _ in range(step['down']):
                     body = bytes([down_seq & 0xff, down_seq >> 8]) if down_seq % 4 else b''
+                    if down_seq % 6 == 5:
+                        body = bytes([down_seq & 0xff, down_seq >> 8]) + bytes(range(28))     # a full packet: 30 data bytes
                     hdr = ((down_seq % 15) << 4) | (down_seq // 15) % 4
                     peer.queue.append(bytes([hdr]) + body)
                     queued.append((down_seq % 15, (down_seq // 15) % 4, body))
